@@ -42,7 +42,7 @@ WITNESSES = ['WitnessManyUpdates', 'WitnessReverseBlocks', 'WitnessUnjudgedPick'
 TIER = {
     # b2: (# two-mode libraries sampled, # three-mode libraries sampled, paths); b3: scenarios per pair, pairs
     'quick': dict(b2_two=230, b2_three=330, b2_paths=1, b3_per_pair=23, b3_pairs='quick'),
-    'thorough': dict(b2_two=1176, b2_three=5000, b2_paths=3, b3_per_pair=70, b3_pairs='thorough'),
+    'thorough': dict(b2_two=1176, b2_three=4000, b2_paths=3, b3_per_pair=64, b3_pairs='thorough'),
 }
 
 
@@ -58,7 +58,8 @@ def start_b1(pool):
     jobs = {'main': pool.submit(tlc.run, 'MC_Feasibility', cfg_text=mc_cfg(CLAUSES_B1 + ['Emit']), timeout=1500,
                                 tag='c13-mc')}
     for w in WITNESSES:
-        jobs[w] = pool.submit(tlc.run, 'MC_Feasibility', cfg_text=mc_cfg([w], libs='MCWitnessLibs'), timeout=900,
+        libs = 'MCWitnessLibs1' if w in ('WitnessProfileZero', 'WitnessOtherRoute', 'WitnessSameRoute') else 'MCWitnessLibs'
+        jobs[w] = pool.submit(tlc.run, 'MC_Feasibility', cfg_text=mc_cfg([w], libs=libs), timeout=900,
                               tag='c13-' + w, workers=2)
     return jobs
 
@@ -192,7 +193,7 @@ CD_TABS = {
 }
 DELTAS = [-1.0, -0.3, -0.02, 0.02, 0.3, 1.0]
 B3_PAIRS = {
-    'quick': [('mesh', 'trx Lannion_CAS', 'trx Lorient_KMA'), ('mesh', 'trx Brest_KLA', 'trx Vannes_KBE'),
+    'quick': [('mesh', 'trx Lannion_CAS', 'trx Lorient_KMA'),
               ('mesh33', 'trx Rennes_STA', 'trx Brest_KLA'),
               ('swe5', 'trx_Gothenburg', 'trx_Karlstad'), ('swe5', 'trx_Borås', 'trx_Umeå'),
               ('swe4', 'trx_Stockholm', 'trx_Malmö'),
@@ -205,7 +206,7 @@ B3_PAIRS = {
 def b3_pairs(tier, benches, rng):
     if tier == 'quick':
         return B3_PAIRS['quick']
-    out = list(B3_PAIRS['quick'])
+    out = list(B3_PAIRS['quick']) + [('mesh', 'trx Brest_KLA', 'trx Vannes_KBE')]
     for b in ('mesh', 'mesh33', 'meshdet', 'prof', 'swe5', 'swe4', 'line'):
         uids = benches[b].trx_uids()
         pairs = [(s, d) for s in uids for d in uids if s != d]
@@ -447,8 +448,9 @@ def build_b3(chk, benches):
         meas = dict(f=(float(np.min(probe[0])), float(np.max(probe[0]))),
                     r=(float(np.min(probe[1])), float(np.max(probe[1]))))
         alts = bench.alternative_routes(src, dst) if bench.name.startswith(('mesh', 'prof')) else []
-        for si in range(cfg['b3_per_pair']):
-            kind, p_fixed, p_bidir, p_ref, p_batch = plans[si] if si < len(plans) else \
+        pair_plans = [pl for pl in plans if alts or pl[4] is None]        # batch plans only where there is another route
+        for si in range(cfg['b3_per_pair'] - (0 if alts else 3)):
+            kind, p_fixed, p_bidir, p_ref, p_batch = pair_plans[si] if si < len(pair_plans) else \
                 (rng.choice(kinds), None, None, None, None)
             spacing = 75e9 if kind != 'nofit' else rng.choice([75e9, 50e9, 25e9])
             # order in which the penalty points are written: ascending on the first pass over the kinds, then any
@@ -630,7 +632,7 @@ def run(chk):
     chk.cov['measured_penalty_deviation_udb'] = acc['penalty']
     t = next((t for t in traces if t['auto'] and sum(e['kind'] for e in t['ev']) >= 3), traces[0])
     chk.sample(dict(kind='B3 scenario judged by Trace_Feasibility', scenario=meta[t['name']],
-                    adddrop_reciprocal_1e9=t['addf'],
+                    adddrop_stages_forward=t['stf'],
                     modes=[{k: m[k] for k in ('br', 'rate', 'fits', 'thr', 'tx')} for m in t['modes']],
                     loop=[dict(mode=e['mode'], dir=e['dir'], nup=e['nup'], worst_rxdb=min(e['rxdb']))
                           for e in t['ev'] if e['kind'] == 1]))
